@@ -198,7 +198,7 @@ if __name__ == "__main__":
     KNOWN = [k for k in ctx.known if k.get("property") == "C09" and k.get("status") == "finding"]
     ctx.assumptions = [
         "clock advances are non-negative whole seconds and finite TTLs whole seconds (the datastore-backed book stores expiries as unix seconds); total clock advance below ConnectedAddrTTL (292 years) — the only hypothesis of the pstoremem theorems (clock_ok)",
-        "the pstoreds theorems (c09_ds_refines_spec, c09_ds_trace_holds, c09_mem_ds_equivalent, c09_ds_bounded_after_gc) hold under ds_ok: whole-second non-negative clock steps staying one second below ConnectedAddrTTL; every TTL <= 0, whole seconds or >= ConnectedAddrTTL; no transport address named twice in a positive-TTL AddAddrs/SetAddrs batch or in a ConsumePeerRecord batch; seq >= 0; lookahead interval >= 0 (each clause shown necessary by a witness)",
+        "the pstoreds theorems (c09_ds_refines_spec, c09_ds_trace_holds, c09_mem_ds_equivalent, c09_ds_bounded_after_gc) hold under ds_ok: whole-second non-negative clock steps staying one second below ConnectedAddrTTL; every TTL <= 0, whole seconds or >= ConnectedAddrTTL; no transport address named twice in a positive-TTL AddAddrs/SetAddrs/ConsumePeerRecord batch; seq >= 0; lookahead interval >= 0 (each clause shown necessary by a witness)",
         "theorems are about the books whose caps never bind (default caps on small universes / caps disabled); histories with binding caps are generated but judged by the weak monitor only (soundness + bound), because eviction ties depend on Go map order",
         "a batch does not name the same address twice",
         "container/heap ordering abstracted: PopIfExpired pops every heap entry with expiry <= now; sort.Slice = a correct sort; go-datastore map store and the ARC cache (never evicting: cache disabled or larger than the universe) behave as maps",
